@@ -280,6 +280,7 @@ func c20(r *core.Run) {
 
 	r.Rule("T1", "one transaction: every Set/SetEntry/Delete on a badger.Txn in the middleware is made on the parameter of a closure passed directly to DB.Update, and that closure also reads the resource key before writing it", 10)
 	r.Rule("T2", "a refused write fails the event: in every apply handler the error returned by the Set / SetEntry / Delete that writes the resource itself flows into the return value of the update closure (through phis and result cells, and through a helper's result when the write sits in a helper)", 10)
+	r.Rule("T3", "nothing fails after the commit: once DB.Update has returned without error the handler's changes are in the database, so every return of an apply handler after it yields a nil error (the error of DB.Update itself, or an error made on its non-nil edge, aside): an error there makes the event method panic before it publishes anything, although storage has already changed", 10)
 	r.Rule("G1", "guards: add rejects len<idx, remove rejects len<=idx, create rejects an existing or defaulted resource, change and remove reject a missing resource without default - each by returning its sentinel from the closure on an edge that does not reach the write", 10)
 	r.Rule("S1", "sibling agreement: the two middleware copies have the same guard -> sentinel sets in each of the five apply handlers", 5)
 	r.Rule("I1", "default stays immutable: the handler's default bytes (served for every resource that is not stored yet) are never a destination: the buffer handed to Item.ValueCopy is nil or freshly made, never (a variable that may hold) the default field, and no element of the default field is stored to", 2)
@@ -316,6 +317,7 @@ func c20(r *core.Run) {
 				r.Bad("T1", core.FuncName(m), "runs-in-one-update-closure", p.Pos(m.Pos()), "apply handler does not run inside a DB.Update closure")
 				continue
 			}
+			c20NothingFailsAfterCommit(r, "T3", m, upd)
 			// read-modify-write on the same key inside the closure (statements may live in private
 			// helpers taking the transaction: they are lifted to their call sites in the closure)
 			var txnPrm ssa.Value
@@ -1115,4 +1117,116 @@ func pooledSource(v ssa.Value, depth int) string {
 		}
 	}
 	return ""
+}
+
+// storedBytesNotPooled: the value handed to Txn.Set (directly, or as the
+// argument a helper passes on) is never backed by a pooled buffer - BadgerDB
+// keeps the slice until the commit, which happens after the update closure
+// (and its deferred Put) has returned (C20.I2's rule for other packages).
+func storedBytesNotPooled(r *core.Run, rule string, rels []string) {
+	p := r.P
+	n := 0
+	for _, rel := range rels {
+		for _, fn := range p.FuncsOfPkg(rel) {
+			for _, c := range core.Calls(fn) {
+				if !isBadgerCall(c, "Txn", "Set") || len(c.Common().Args) < 3 {
+					continue
+				}
+				n++
+				src := ""
+				for _, v := range paramArgs(p, c.Common().Args[2], 0) {
+					if s := pooledSource(v, 0); s != "" {
+						src = s
+					}
+				}
+				r.Check(src == "", rule, core.FuncName(fn), "stored-bytes-are-not-pooled", p.InstrPos(c), "the value handed to the transaction is not backed by a pooled buffer", "the value handed to Txn.Set is backed by "+src+": BadgerDB keeps the slice until the transaction commits - after the closure has returned -, so a buffer that goes back to a pool when the closure ends can be refilled by a concurrent mutation of another id first, and that id's bytes are committed under this key")
+			}
+		}
+	}
+	if n == 0 {
+		r.Bad(rule, strings.Join(rels, ","), "stored-bytes-are-not-pooled", "-", "no Txn.Set found (rule went vacuous)")
+	}
+}
+
+// c20NothingFailsAfterCommit: every error an apply handler can return once
+// DB.Update has come back is that call's own error (or one made on its
+// non-nil edge).
+func c20NothingFailsAfterCommit(r *core.Run, rule string, m *ssa.Function, upd ssa.CallInstruction) {
+	p := r.P
+	uv := upd.Value()
+	if uv == nil {
+		r.Unres(rule, core.FuncName(m)+".<update-result>", "the result of DB.Update is not used")
+		return
+	}
+	after := map[*ssa.BasicBlock]bool{}
+	var walk func(b *ssa.BasicBlock)
+	walk = func(b *ssa.BasicBlock) {
+		if after[b] {
+			return
+		}
+		after[b] = true
+		for _, s := range b.Succs {
+			walk(s)
+		}
+	}
+	for _, s := range upd.Block().Succs {
+		walk(s)
+	}
+	isUpd := func(v ssa.Value) bool {
+		for _, l := range phiSources(v) {
+			if core.Strip(l.V) != ssa.Value(uv) {
+				return false
+			}
+		}
+		return true
+	}
+	ok := true
+	var where ssa.Instruction = upd
+	n := 0
+	for _, ret := range core.Returns(m) {
+		if len(ret.Results) == 0 || !(after[ret.Block()] || ret.Block() == upd.Block()) {
+			continue
+		}
+		n++
+		ev := ret.Results[len(ret.Results)-1]
+		if types.TypeString(ev.Type(), nil) != "error" {
+			continue
+		}
+		for _, src := range phiSources(ev) {
+			v := core.Strip(src.V)
+			if c, isC := v.(*ssa.Const); isC && c.IsNil() {
+				continue
+			}
+			if v == ssa.Value(uv) {
+				continue
+			}
+			in, isI := v.(ssa.Instruction)
+			if isI && in.Parent() == m && !after[in.Block()] && in.Block() != upd.Block() {
+				continue // made before the transaction ran
+			}
+			onFailure := false
+			for _, ed := range srcEdges(ret, src) {
+				ci := core.Cond(ed.If.Cond)
+				if ci.Kind != "nilcmp" || !isUpd(ci.X) {
+					continue
+				}
+				truth := ed.Succ == 0
+				if ci.Negate {
+					truth = !truth
+				}
+				if (ci.Op == token.NEQ) == truth {
+					onFailure = true
+				}
+			}
+			if !onFailure {
+				ok = false
+				where = ret
+			}
+		}
+	}
+	if n == 0 {
+		r.Unres(rule, core.FuncName(m)+".<return-after-update>", "no return after DB.Update")
+		return
+	}
+	r.Check(ok, rule, core.FuncName(m), "no-error-once-the-update-has-committed", p.InstrPos(where), "after DB.Update only its own error is returned", "the handler can return an error of its own after DB.Update has returned without one: the transaction is committed (the stored resource is changed or gone), but the event method panics on the error before it publishes the event or calls a listener - storage has changed and nothing was published")
 }
